@@ -194,8 +194,8 @@ def run(ctx):
                             ctx.add(RULE, f, 'payload-borrowed-mut(%s)' % c.callee_name(), 'violation',
                                     'a mutable reference to a stored payload (%s) is passed to %s: the entry is altered outside insertion/removal' % ('.'.join(sa.fields()), c.extra['callee'].get('path') or 'a callback'),
                                     props, span_line(c, f.line))
-        if n_writes < 3:
-            ctx.anchor_missing(RULE, 'payload write sites of %s' % tree, props, n_writes, 3)
+        if n_writes < 2:
+            ctx.anchor_missing(RULE, 'payload write sites of %s' % tree, props, n_writes, 2)
         # ---- the public operations perform their effect on every path on which they must ----
         for f in fns:
             if f.trait_method() == 'insert':
